@@ -84,7 +84,7 @@ class Gen:
             self.use("Bytes")
             if "fmt-bytes-escape" in risky and self.chance(0.4):
                 return self.pick(['b"a\\"b"', 'b"a\\\\b"'])
-            return self.pick(['b"abc"', 'b""', 'b"\\x00\\xff"', 'b"a\\nb\\t"', "b'q'"])
+            return self.pick(['b"abc"', 'b""', 'b"\\x00\\xff"', 'b"a\\nb\\t"', "b'q'", 'b"it\'s"', "b'don\\'t'", 'b"\\x27\\x22"', "b'say \"hi\"'"])
         if k == 4:
             self.use("Bool")
             return self.pick(["true", "false"])
@@ -818,6 +818,111 @@ def load_findings(chk, prop, proposed):
     return {f["id"] for f in chk.findings if f.get("status") == "known"}
 
 
+# ------------------------------------------------------------------------------------------ literal content sweep
+def literal_sweep(tier="quick"):
+    """Deterministic sweep of literal CONTENT: bytes (all 256 values, interesting pairs, every escape, both source
+    quote styles), strings, f-string literal parts, docstrings; expression and pattern position.
+    -> list of (origin, source); every const / function is its own declaration, so each item is judged alone."""
+    out = []
+    decls = []
+
+    def flush(tag):
+        nonlocal decls
+        for i in range(0, len(decls), 40):
+            out.append(("sweep:%s:%d" % (tag, i // 40), "\n".join(decls[i:i + 40]) + "\n"))
+        decls = []
+
+    def bspell(v, q):
+        """source spellings of byte v inside a byte string opened with quote q"""
+        sp = ["\\x%02x" % v]
+        if 32 <= v < 127:
+            c = chr(v)
+            if c == "\\":
+                sp.append("\\\\")
+            elif c == q:
+                sp.append("\\" + c)
+            else:
+                sp.append(c)
+        sp += {10: ["\\n"], 9: ["\\t"], 13: ["\\r"], 0: ["\\0"]}.get(v, [])
+        return sp
+
+    n = [0]
+
+    def const_b(body, q):
+        n[0] += 1
+        decls.append("const B%d: bytes = b%s%s%s" % (n[0], q, body, q))
+
+    def pat_b(body, q):
+        n[0] += 1
+        decls.append("def p%d(v: bytes) -> int:\n    match v:\n        b%s%s%s => 1\n        _ => 0" % (n[0], q, body, q))
+    # every byte value alone, every spelling, both quotes
+    for v in range(256):
+        for q in ('"', "'"):
+            for sp in bspell(v, q):
+                const_b(sp, q)
+    flush("bytes1")
+    INTERESTING = [0x27, 0x22, 0x5C, 0x0A, 0x09, 0x00, 0x7F, 0x80, 0xFF, 0x61, 0x78, 0x6E]
+    for a in INTERESTING:
+        for b in INTERESTING:
+            for q in ('"', "'"):
+                const_b(bspell(a, q)[-1 if a in (0x27, 0x22, 0x5C) else 0] + bspell(b, q)[-1 if b in (0x27, 0x22, 0x5C) else 0], q)
+            const_b("\\x%02x\\x%02x" % (a, b), '"')
+    # escapes that are NOT escapes for the opening quote (kept as two bytes), and words
+    for body, q in (("it's", '"'), ("don\\'t", "'"), ("\\'", '"'), ('\\"', "'"), ("a\\'b\\\\'c", '"'), ("\\x27", '"'), ("\\x27", "'"), ("say \\\"hi\\\"", '"'),
+                    ('say "hi"', "'"), ("\\q\\z", '"'), ("", '"'), ("", "'"), ("\\\\'", '"'), ("'\\\\", '"'), ("''", '"'), ("\\'\\'", "'")):
+        const_b(body, q)
+        pat_b(body, q)
+    for v in (0x27, 0x22, 0x5C, 0x00, 0xFF, 0x41):
+        for q in ('"', "'"):
+            pat_b(bspell(v, q)[-1 if v in (0x27, 0x22, 0x5C) else 0], q)
+    flush("bytes2")
+    # ---- strings
+    PIECES = ["'", '"', "\\\\", "{", "}", "é", "日本", "\\n", "\\t", "\\r", "\\0", "\\x41", "\\q", " ", "a", "{x}", "#", "\\\\n"]
+
+    def sspell(piece, q):
+        if piece == q:
+            return "\\" + piece
+        return piece
+
+    def const_s(body, q):
+        n[0] += 1
+        decls.append("const S%d: str = %s%s%s" % (n[0], q, body, q))
+
+    def pat_s(body, q):
+        n[0] += 1
+        decls.append("def q%d(v: str) -> int:\n    match v:\n        %s%s%s => 1\n        case %s%s%s: return 2\n        _ => 0" % (n[0], q, body, q, q, body, q))
+    for a in PIECES:
+        for q in ('"', "'"):
+            const_s(sspell(a, q), q)
+            pat_s(sspell(a, q), q)
+            for b in PIECES:
+                const_s(sspell(a, q) + sspell(b, q), q)
+    for body, q in (("it's", '"'), ("it\\'s", "'"), ("it\\'s", '"'), ('say \\"hi\\"', '"'), ('say \\"hi\\"', "'"), ("", '"'), ("", "'")):
+        const_s(body, q)
+        pat_s(body, q)
+        n[0] += 1
+        decls.append("def c%d() -> None:\n    f(%s%s%s, k=%s%s%s)\n    d = {%s%s%s: [%s%s%s]}" % ((n[0],) + (q, body, q) * 4))
+    n[0] += 1
+    decls.append('def t%d() -> None:\n    x = """triple \'single\' and "double" inside"""\n    y = \'\'\'other "triple" it\'s\'\'\'' % n[0])
+    flush("str")
+    # ---- f-strings (literal parts; `" \\ { } LF CR` are the open class fmt-fstring-escape)
+    FP = ["'", "é", " ", "a", "#", "\\t", "{{", "}}", '\\"', "\\\\", "\\n", "it's", "日本"]
+    for a in FP:
+        for q in ('"', "'"):
+            for tail in ("", "{x}", "{x.y}b"):
+                n[0] += 1
+                body = ("\\'" if (a == "'" and q == "'") else ("\\'s".join("it's".split("'s")) if (a == "it's" and q == "'") else a))
+                decls.append("def g%d(x: int) -> str:\n    return f%s%s%s%s" % (n[0], q, body, tail, q))
+    n[0] += 1
+    decls.append("def g%d(x: int) -> str:\n    return f'say \"{x}\"'" % n[0])
+    flush("fstr")
+    # ---- module docstrings (a docstring is its own declaration; backslash / `\"\"\"` / edge quotes: open class)
+    for doc in ('"""it\'s a doc"""', '"""say "hi" there"""', '"""café 日本"""', "'single quoted doc'", '"plain \'doc\'"', '"""a\\\\nb"""', '"""tab\\there"""',
+                '"""\nmulti\n  it\'s "quoted"\n"""', '"""braces {x} # not a comment"""', "'''triple single \"x\"'''", '"ends with quote\\""'):
+        out.append(("sweep:doc:%d" % len(out), doc + "\nconst AFTER: int = 1\n"))
+    return out
+
+
 # ------------------------------------------------------------------------------------------ corpus
 def corpus_files():
     out = []
@@ -863,6 +968,7 @@ def gather(chk, binary):
             kind = {"fmt-docstring-escape": "docstring"}.get(r, "function")
             items.append(("risky:%s:%d" % (r, j), "\n".join(g.decl(kind, (r,))) + "\n"))
             used |= g.used
+    items += literal_sweep(chk.tier)
     res = run_decls(binary, [s for _, s in items])
     return [(o, s, r) for (o, s), r in zip(items, res)], used
 
@@ -1244,6 +1350,37 @@ def run_tie(chk, binary, res):
     return bad, len(cases), skipped
 
 
+def bytes_tie(chk, binary, res):
+    """Fmt/Bytes.v `escape` vs the text the real formatter writes between the quotes of a byte string, and the real
+    lexer's decoding of that text vs the bytes (every single byte value, pairs of the interesting ones)."""
+    inter = [0x27, 0x22, 0x5C, 0x0A, 0x09, 0x00, 0x7F, 0x80, 0xFF, 0x61, 0x78, 0x30]
+    lists = [[v] for v in range(256)] + [[a, b] for a in inter for b in inter] + [[0x5C, 0x27, 0x27, 0x5C, 0x22], list(range(0x20, 0x30))]
+    srcs = ["".join("const B%d: bytes = b\"%s\"\n" % (i + j, "".join("\\x%02x" % v for v in bs)) for j, bs in enumerate(lists[i:i + 50]))
+            for i in range(0, len(lists), 50)]
+    out = run_decls(binary, srcs, text=True)
+    real = []
+    for r in out:
+        if r.get("parse") != "ok":
+            raise vlib.Infra("bytes tie: generated source does not parse: %s" % r.get("parse"))
+        for d in r["decls"]:
+            t = d["text"].rstrip("\n")
+            real.append(t[t.index('b"') + 2:-1])
+    if not vlib.coq_build(["Fmt/Bytes.vo"])[0]:
+        res["tie_ok"] = False
+        res["broken"].append({"what": "model", "message": "Fmt/Bytes.v does not build"})
+        return [], 0
+    req = "From Coq Require Import ZArith List.\nImport ListNotations.\nFrom Verif Require Import Fmt.Bytes.\nOpen Scope Z_scope."
+    got = vlib.coq_eval(req, "list Z", "escape", [vlib.zlist(bs) for bs in lists], shard=210, tag="c08bytes")
+    bad = []
+    for bs, g, t in zip(lists, got, real):
+        chk.count_case(("bytes-tie", tuple(bs)), nontrivial=True)
+        m = "".join(chr(c) for c in g)
+        if m != t:
+            bad.append({"source": 'const B: bytes = b"%s"\n' % "".join("\\x%02x" % v for v in bs), "why": "Fmt/Bytes.v escape and the formatter disagree",
+                        "model": m, "impl": t})
+    return bad, len(lists)
+
+
 # ------------------------------------------------------------------------------------------ run / replay
 def witness_fails_c08(f, r):
     known = {f["id"]}
@@ -1278,6 +1415,9 @@ def run(chk):
     items, used = gather(chk, binary)
     fails, dist, hits, tags, n_decl = oracle_c08(chk, items, known)
     corr_bad, n_tie, skipped = run_tie(chk, binary, res)
+    b_bad, n_bt = bytes_tie(chk, binary, res)
+    corr_bad += b_bad
+    n_tie += n_bt
     missing = [t for t in EXPECTED_TAGS if t not in tags]
     chk.coverage["rule"] = ("one evaluation per top-level declaration of every corpus file (%d files) and of every generated program; non-trivial = the "
                             "declaration carries no finding class or round-trips after the listed transformation; plus one per tie case" % len([1 for o, _, _ in items if o.startswith("file:")]))
